@@ -120,6 +120,13 @@ class SpreadStepSizesBlockwiseNonMPI(SpreadStepSizesBlockwise):
         if S not in MS:
             return None
 
+        # the step sizes are computed once per block for the first step, before any step size has been overwritten,
+        # and all other steps of the block take over these values
+        if S is not MS[0]:
+            for i in range(len(S.levels)):
+                S.levels[i].params.dt = MS[0].levels[i].params.dt
+            return None
+
         spread_from_step, restart_at = self.get_step_from_which_to_spread(MS, S)
 
         # Compute the maximum allowed step size based on Tend.
